@@ -966,3 +966,60 @@ class Idents(Monitor):
         yield (vkey('C21', 'duplicate-col-id', ctx),
                "after %r: columns %r and %r of %s differ at most in case" % (ctx.label, s[low], cid, t['tableId']))
       s[low] = cid
+
+
+# ------------------------------------------------------------------------------------------------
+class Lookups2(Monitor):
+  """
+  C13 over W_look2: the single referring row D[1] against a reference computed from the dump
+  (naive filter, order by the column named in the formula, then manualSort, then id).
+  """
+  name = 'lookups2'
+
+  def check(self, ctx):
+    if ctx.exc is not None:
+      return
+    d = ctx.post_dump
+    if 'L' not in d or 'D' not in d or 1 not in d['D']['rows']:
+      return
+    L, D = d['L']['rows'], d['D']['rows'][1]
+    lcols = d['L']['cols']
+    cols = d['_grist_Tables_column']['rows']
+    tabs = {r: t['tableId'] for r, t in d['_grist_Tables']['rows'].items()}
+    formula = {c['colId']: c['formula'] for c in cols.values() if tabs.get(c['parentId']) == 'D'}
+    ob = 's2' if 'order_by="s2"' in formula.get('ids', '') else 's1'
+    x, lim = D.get('x'), D.get('lim')
+    matches = sorted(r for r, row in L.items() if row.get('key') == x)
+    is_err = lambda v: isinstance(v, list) and v[:1] == ['E']
+    want = {'cnt': len(matches)}
+    if ob in lcols:
+      ordered = sorted(matches, key=lambda r: (L[r][ob], _num(L[r].get('manualSort')) or 0, r))
+      want['ids'] = ordered
+      want['first'] = ordered[0] if ordered else 0
+      want['hist'] = ordered
+      below = [r for r in ordered if isinstance(lim, int) and L[r][ob] <= lim]
+      want['cur'] = L[below[-1]].get('amt') if below else 0
+    else:                     # a missing sort column is an error whether or not anything matches
+      for c in ('ids', 'first', 'hist', 'cur'):
+        want[c] = 'error'
+    want['zz'] = [L[r]['zz'] for r in matches] if 'zz' in lcols else 'error'
+    want['has'] = sum(1 for row in L.values() if x in (as_list(row.get('tags')) or []))
+    n = 0
+    for c, w in sorted(want.items()):
+      if c not in D:
+        continue
+      got = D[c]
+      n += 1
+      if w == 'error':
+        ok = is_err(got)
+      elif isinstance(w, list):
+        ok = (as_list(got) or []) == w and not is_err(got)
+      else:
+        ok = got == w and not isinstance(got, bool)
+      if not ok:
+        yield (vkey('C13', 'lookup-result', ctx, extra=c),
+               "after %r: D[1].%s (%s) = %r, reference %r (x=%r lim=%r order by %s; L=%s)" % (
+                   ctx.label, c, formula.get(c), got, w, x, lim, ob,
+                   {r: {k: v for k, v in row.items() if k in ('key', ob, 'amt', 'tags')}
+                    for r, row in sorted(L.items())}))
+    ctx.extra['lookups_compared'] = n
